@@ -704,6 +704,19 @@ func init() {
 		if ok1 && ok2 {
 			return Bool(strings.EqualFold(cx, cy))
 		}
+		if isPlainB(x) && isPlainB(y) {
+			// byte-exact for ASCII: equal, or the same letter in the two cases (multi-byte runes fold only to themselves here)
+			if len(x.Bytes) != len(y.Bytes) {
+				return TFalse
+			}
+			out := TTrue
+			for i := range x.Bytes {
+				lx, ly := BVBin("bvor", x.Bytes[i], BVu(8, 0x20)), BVBin("bvor", y.Bytes[i], BVu(8, 0x20))
+				letter := And(BVCmp("bvuge", lx, BVu(8, 'a')), BVCmp("bvule", lx, BVu(8, 'z')))
+				out = And(out, Or(Eq(x.Bytes[i], y.Bytes[i]), And(Eq(lx, ly), letter)))
+			}
+			return out
+		}
 		return Eq(App("tolower", SStr, it.toA(x)), App("tolower", SStr, it.toA(y)))
 	}
 	models["bytes.Equal"] = func(it *Interp, a []Val) Val { return it.strEq(a[0].(*StrV), a[1].(*StrV)) }
